@@ -127,6 +127,15 @@ const TOT_NUM_ACCUM_BITS: u32 = 24;
 /// Note that the lookup table size MUST be a power of 2
 const NUM_LUT_INDEX_BITS: u32 = ilog_2(lookup_tables::SINE_LUT_SIZE);
 
+/// Verification hook: the constants of this module as compiled
+#[cfg(feature = "verif-hooks")]
+pub fn verif_consts() -> [(&'static str, u32); 2] {
+    [
+        ("LFO_TOT_NUM_ACCUM_BITS", TOT_NUM_ACCUM_BITS),
+        ("LFO_NUM_LUT_INDEX_BITS", NUM_LUT_INDEX_BITS),
+    ]
+}
+
 #[cfg(test)]
 mod tests {
     use super::*;
